@@ -566,11 +566,70 @@ def run_sorting(ctx, quick):
                                               "bad": bad[:5]}, True)
 
 
+def run_denom_sym(ctx, quick):
+    """symmetries reported for a term with orbital-energy denominator
+    (EriOrbenergy.denom_eri_sym: common symmetry of remainder and
+    denominator), decided by the fraction validator, pointwise (all indices
+    free); the same stream runs under C13"""
+    from adcgen.eri_orbenergy import EriOrbenergy
+    from adcgen.sympy_objects import (AntiSymmetricTensor, Amplitude,
+                                      NonSymmetricTensor)
+    rng = ctx.rng
+    occ, virt = G.pool("o", 6), G.pool("v", 6)
+    i_, j_, k_ = occ[:3]
+    a_, b_, c_ = virt[:3]
+
+    def e_(x):
+        return NonSymmetricTensor("e", (x,))
+    rems = [AntiSymmetricTensor("V", (i_, j_), (a_, b_), 1),
+            Amplitude("t1", (a_, b_), (i_, j_)),
+            AntiSymmetricTensor("V", (i_, k_), (a_, c_), 1)
+            * Amplitude("t1", (b_, c_), (j_, k_))]
+    dens = [e_(i_) - e_(j_), e_(a_) - e_(b_),
+            e_(i_) + e_(j_) - e_(a_) - e_(b_),
+            (e_(i_) - e_(j_)) * (e_(a_) - e_(b_)), (e_(a_) - e_(b_)) ** 3]
+    pairs = []
+    for rem_ in rems:
+        for den_ in dens:
+            term = G.random_coef(rng) * rem_ / den_
+            allidx = sorted(term.atoms(Index), key=lambda s_: s_.name)
+            try:
+                sym_ = EriOrbenergy(Expr(term).terms[0]).denom_eri_sym()
+            except Exception as ex:
+                ctx.violation(f"C10:denom_eri_sym:exception:{str(term)[:100]}",
+                              f"denom_eri_sym raised {ex!r}",
+                              {"term": str(term)}, False)
+                continue
+            for perms_, f_ in sym_.items():
+                if f_ is None:
+                    continue
+                perm_t = term
+                for p1, p2 in perms_:
+                    perm_t = perm_t.xreplace({p1: p2, p2: p1})
+                pairs.append(EQ.Pair(
+                    Expr(perm_t, target_idx=allidx),
+                    Expr(f_ * term, target_idx=allidx), allidx,
+                    f"denom_eri_sym:{perms_}:{f_}:{str(term)[:80]}",
+                    special={"e": numeric.orb_energy_special}, frac="e"))
+                ctx.case(key=("denom_eri_sym", str(term), str(perms_)),
+                         nontrivial=True, kind="denom_eri_sym")
+    EQ.run_pairs(ctx, "densym", pairs, shard=20, header=adcio.COQ_HEADER3)
+    for p in pairs:
+        if not ctx.obligation(f"reported common symmetry {p.label[:90]}",
+                              bool(p.ok), p.err):
+            ctx.violation(f"C10:{p.label[:160]}",
+                          "a symmetry reported for a term with orbital-energy "
+                          "denominator does not hold",
+                          {"relation": p.label, "difference": p.diff,
+                           "error": p.err}, p.diff is not None)
+
+
 def run(ctx):
     quick = ctx.tier == "quick"
     run_symmetry(ctx, quick)
     run_exploit(ctx, quick)
     run_sorting(ctx, quick)
+    run_denom_sym(ctx, quick)
 
 
 def replay(ctx, rep):
